@@ -720,3 +720,36 @@ Theorem msg_roundtrip_negzero_refuted :
   msg_decode sc 0 (mkR (enc_msg false 1 sc 0 v) 0) = OOk (VL NMsg [VL NMap [VL NPair [VI 5; VI 0]]]) (mkR [] 1) /\
   msg_decode sc 0 (mkR (enc_msg true 1 sc 0 v) 0) = OOk v (mkR [] 1).
 Proof. cbv zeta. vm_compute. repeat split; reflexivity. Qed.
+
+(* the isd premises of the round trip exercised for real: map entries whose key, value or both ARE the default are written
+   with those parts omitted (feature off) -- `0a 00` for {0: 0.0} -- and come back; lossless holds because what is skipped is
+   the default *)
+Example msg_roundtrip_default_entries :
+  let sc := [[FMap 1 TYPE_INT32 (TScalar TYPE_DOUBLE); FMap 2 TYPE_STRING (TMsg 0)]] in
+  let leaf := VL NMsg [VL NMap []; VL NMap []] in
+  let v := VL NMsg [VL NMap [VL NPair [VI 0; VI 0]; VL NPair [VI 7; VI 0]; VL NPair [VI 3; VI 4607182418800017408]];
+                    VL NMap [VL NPair [VB []; leaf]; VL NPair [VB [x6b]; leaf]]] in
+  schema_ok sc = true /\ wt_msg 2 sc 0 v = true /\ lossless false 2 sc 0 v /\
+  firstn 6 (enc_msg false 2 sc 0 v) = [x0a; x00; x0a; x02; x08; x07] /\
+  (exists a', msg_decode sc 0 (mkR (enc_msg false 2 sc 0 v) 0) = OOk v (mkR [] a')) /\
+  (exists a', msg_decode sc 0 (mkR (enc_msg true 2 sc 0 v) 0) = OOk v (mkR [] a')).
+Proof.
+  cbv zeta.
+  assert (L : lossless false 2 [[FMap 1 TYPE_INT32 (TScalar TYPE_DOUBLE); FMap 2 TYPE_STRING (TMsg 0)]] 0
+                (VL NMsg [VL NMap [VL NPair [VI 0; VI 0]; VL NPair [VI 7; VI 0]; VL NPair [VI 3; VI 4607182418800017408]];
+                          VL NMap [VL NPair [VB []; VL NMsg [VL NMap []; VL NMap []]]; VL NPair [VB [x6b]; VL NMsg [VL NMap []; VL NMap []]]]])).
+  { cbn. repeat split; try discriminate; try (intros _ H; vm_compute in H; discriminate H);
+      try (intros _ _ D HD; destruct D as [|D]; [lia|reflexivity]); try (intros; reflexivity). }
+  split; [vm_compute; reflexivity|]. split; [vm_compute; reflexivity|]. split; [exact L|]. split; [vm_compute; reflexivity|]. split.
+  - apply msg_roundtrip; [vm_compute; reflexivity|vm_compute; reflexivity|exact L|vm_compute; reflexivity|vm_compute; congruence].
+  - apply msg_roundtrip_edv; [vm_compute; reflexivity|vm_compute; reflexivity|vm_compute; reflexivity|vm_compute; congruence].
+Qed.
+
+(* F-05b / F-06c: the f32 / f64 wrapper impls of types.rs write nothing for -0.0 (`*self != 0.0` is false), the same bytes as
+   for +0.0: no decoder can give the value back *)
+Theorem wrapper_negzero_refuted :
+  wrapper_enc (Some MDouble) (VI 9223372036854775808) = [] /\ wrapper_enc (Some MDouble) (VI 0) = [] /\
+  wrapper_decode (Some MDouble) (mkR (wrapper_enc (Some MDouble) (VI 9223372036854775808)) 0) = OOk (VI 0) (mkR [] 0) /\
+  wrapper_enc (Some MFloat) (VI 2147483648) = [] /\
+  wrapper_decode (Some MFloat) (mkR (wrapper_enc (Some MFloat) (VI 2147483648)) 0) = OOk (VI 0) (mkR [] 0).
+Proof. vm_compute. repeat split; reflexivity. Qed.
